@@ -3,7 +3,7 @@
    service invocation, then at most one send of the reply framed under that request's own header,
    completed before the next request is looked at.  The theorem says the loop over the BYTE STREAM,
    under every chunking and every write/flush behaviour, does exactly that. *)
-From TM Require Import Base Frame Pdu RtuCodec TcpCodec Framed Client Server FramedProofs ServerProofs EndToEnd Text Run Exchange ClientProofs PduEncode.
+From TM Require Import Base Frame Pdu RtuCodec TcpCodec Framed Client Server FramedProofs ServerProofs EndToEnd Text Run Exchange ClientProofs PduEncode Totality ServerTrace.
 
 Theorem C07_stream_is_served_request_by_request : forall p m fs is cs b rd tl svc w fuel,
   Forall2 (server_valid p) fs is -> Forall nonempty cs ->
@@ -49,3 +49,25 @@ Theorem C07_one_request_any_fragmentation : forall p m st r rep cs,
   concat cs = req_frame p (req_hdr p st) r -> Forall nonempty cs ->
   serve_conn p m (datas cs) [] [] [rep] = one_trace p m (req_hdr p st) r rep.
 Proof. exact serve_one_chunked. Qed.
+
+(* ---- ARBITRARY input: any bytes, fragmentation and faults on the read side, any service, any write / flush
+   behaviour of the transport ----
+   [Trace p m svc t] (proofs/ServerTrace.v): t is a sequence of blocks, each a service invocation [TCall slave req]
+   followed -- before anything else happens on the connection -- by the bytes of exactly ONE frame
+   [server_enc p m h rr] with [snd h = slave] and rr the service's answer to THIS request (the response, or the
+   exception under the request's function code), or by nothing when the service declined; the trace ends with one
+   terminal event, a reply that could not be encoded or written having put at most a prefix of that one frame on the
+   line.  So no reply is ever reordered, duplicated, merged with another or attributed to another request, whatever
+   else is on the line. *)
+Theorem C07_every_trace_has_the_reply_shape : forall p m q wq fq svc, Trace p m svc (serve_conn p m q wq fq svc).
+Proof. exact serve_conn_trace. Qed.
+(* the bytes written over the life of the connection are the reply frames of the answered invocations, in invocation
+   order, the last one possibly cut short: nothing else, nothing twice *)
+Theorem C07_written_bytes_are_reply_frames_in_order : forall p m svc t, Trace p m svc t ->
+  exists fs last, is_prefix (written t) (concat fs ++ last)
+    /\ (forall f, In f (fs ++ [last]) -> f = [] \/ exists h rr, server_enc p m h rr = Val f).
+Proof. exact trace_written. Qed.
+(* and the only terminal events of a real connection are report / closed / waiting *)
+Theorem C07_trace_ends_properly : forall p m q wq fq svc,
+  ~ In TOutOfFuel (serve_conn p m q wq fq svc) /\ ~ In TPanic (serve_conn p m q wq fq svc).
+Proof. exact Totality.serve_conn_terminates. Qed.
